@@ -396,6 +396,8 @@ def run_ast_route(cx):
         lines.append("a%d %s xpast %s" % (k, COMP, hexs(t)))
     for i, e in enumerate(asts):
         lines.append("r%d %s xprender %s" % (i, COMP, hexs(want[i])))
+    for i, e in enumerate(asts):
+        lines.append("t%d %s xprendert %s" % (i, COMP, hexs(want[i])))
     rm = {}
     for start in range(0, len(lines), CHUNK):
         rm.update(cx.run_model(lines[start:start + CHUNK]))
@@ -419,11 +421,26 @@ def run_ast_route(cx):
         t = unhex(b[1])
         extra.append(("lean-render", t))
         lines2.append("b%d %s xpast %s" % (i, COMP, b[1])); idx.append(i)
+    # the TIGHT text of the Lean renderer (Render.renderT, parse_render_tight_roundtrip): no blank that followOk lets go; it must never need
+    # its single-blank fallback, must parse back to the AST, and goes through lyxp_expr_parse as well
+    for i, e in enumerate(asts):
+        b = rm.get("t%d" % i, ["err", "NoReply"])
+        cx.count(("xprendert", want[i]), b[0] == "ok", "xprendert:%s" % outcome(b))
+        if b[:2] == ["err", "NotWf"]:
+            continue
+        if b[0] != "ok" or len(b) != 3:
+            cx.disagree(COMP, "xprendert %s" % hexs(want[i]), ["python-ast", "renderable"], b)
+            continue
+        if b[2] != "0":
+            cx.fail(COMP, "the tight renderer needed its single-blank fallback (Render.tightBs does not satisfy Render.Spacing)",
+                    {"tight_fallback": True, "ast": want[i], "text": b[1]})
+        extra.append(("lean-tight", unhex(b[1])))
+        lines2.append("c%d %s xpast %s" % (i, COMP, b[1])); idx.append(i)
     rm2 = {}
     for start in range(0, len(lines2), CHUNK):
         rm2.update(cx.run_model(lines2[start:start + CHUNK]))
     for l, i in zip(lines2, idx):
-        b = rm2.get("b%d" % i, ["err", "NoReply"])
+        b = rm2.get(l.split()[0], ["err", "NoReply"])
         cx.count(("xpast-of-xprender", want[i]), b[0] == "ok", "xpast-of-xprender:%s" % outcome(b))
         if b != ["ok", hexs(want[i])]:
             cx.disagree(COMP, l, ["python-ast", hexs(want[i])], b)
